@@ -82,6 +82,8 @@ class BufferedFile(ClosingContextManager):
         """
         Close the file.  Future read and write operations will fail.
         """
+        if self._closed:
+            return
         self.flush()
         self._closed = True
 
@@ -90,6 +92,8 @@ class BufferedFile(ClosingContextManager):
         Write out any data in the write buffer.  This may do nothing if write
         buffering is not turned on.
         """
+        if self._closed:
+            raise IOError("File is closed")
         self._write_all(self._wbuffer.getvalue())
         self._wbuffer = BytesIO()
         return
@@ -367,6 +371,8 @@ class BufferedFile(ClosingContextManager):
 
         :returns: file position (`number <int>` of bytes).
         """
+        if self._closed:
+            raise IOError("File is closed")
         # account for data still in the write buffer: it will land at the
         # current position, or at the end of the file in append mode
         pending = self._wbuffer.tell()
